@@ -1187,6 +1187,10 @@ class Key(object):
         if self.is_private and not (self.public_byte or self.public_hex):
             if not self.is_private:
                 raise BKeyError("Private key has no known secret number")
+            # 128 character hexadecimal keys are reduced modulo the group order by ec_point (kept for compatibility)
+            wide = self.key_format == 'hex' and len(self.private_hex) == 128
+            if not 0 < self.secret < secp256k1_n and not (wide and self.secret % secp256k1_n):
+                raise BKeyError("Private key must be a number between 1 and the secp256k1 group order - 1")
             p = ec_point(self.secret)
             if USE_FASTECDSA:
                 self._x = p.x
